@@ -14,6 +14,7 @@ import Emboss.Lemmas.FmtSanity
 import Emboss.Lemmas.FmtTableOK
 import Emboss.Lemmas.FmtNormalOK
 import Emboss.Lemmas.FmtSeparableOK
+import Emboss.Lemmas.FmtIdem
 namespace Emboss.Fmt
 open Emboss.Generated.FmtTable
 
@@ -242,6 +243,30 @@ example : equivT exTree exTree2 = true ∧ exTree ≠ exTree2 := by
 example : formatTree 3 exTree2 = some (.str "-- hi\n# c\n".toList) :=
   C11_format_fixed_point_partial 3 exTree exTree2 _ (by decide +kernel) (by decide +kernel)
     (by decide +kernel) (by decide +kernel)
+
+/-- **The global row passes are projections** (a necessary ingredient of idempotence that
+needs no tokenizer): stripping leading/trailing empty comment rows, re-indenting blank and
+comment rows to the following row, and inserting a blank row at a dedent each change
+nothing when applied to their own result — for every list of rows; and every rendered
+line is free of trailing blanks (so Comment tokens of a formatted text have none, which is
+what `C11_format_fixed_point_partial` needs of its `t`).  It does not follow that the whole
+pipeline is idempotent (the rows of the second run come from re-parsing the text). -/
+theorem C11_layout_passes_idempotent (iw : Nat) (rows : List Row) :
+    stripEmptyRows (stripEmptyRows rows) = stripEmptyRows rows ∧
+    indentBlanksAndComments (indentBlanksAndComments rows) = indentBlanksAndComments rows ∧
+    addBlankRowsOnDedent (addBlankRowsOnDedent rows) = addBlankRowsOnDedent rows ∧
+    ∀ r ∈ rows, ∀ t, renderRow iw r = some t → rstrip t = t :=
+  ⟨stripEmptyRows_idem rows, indentBlanksAndComments_idem rows, addBlankRowsOnDedent_idem rows,
+   fun r _ t h => renderRow_trimmed iw r t h⟩
+
+/-- Non-vacuity (test on literals): on these rows every pass does change something. -/
+example :
+    let rows : List Row := [{ name := .comment }, { name := .comment, columns := ["# c  ".toList] },
+      { name := .field, columns := ["x".toList], indent := 1 }, { name := .field, columns := ["y".toList] },
+      { name := .comment }]
+    stripEmptyRows rows ≠ rows ∧ indentBlanksAndComments rows ≠ rows ∧ addBlankRowsOnDedent rows ≠ rows ∧
+    renderRow 2 { name := .comment, columns := ["# c  ".toList] } = some "# c".toList := by
+  decide
 
 /-! ## The self-check -/
 
